@@ -768,11 +768,59 @@ pub open spec fn c16_table(m: Map<OsString, LanguageParser>) -> bool {
     &&& unregistered(m, "bak"@) && unregistered(m, "rs.bak"@) && unregistered(m, "x.rs.bak"@)
 }
 
+/// C16 / C03: EVERY row of the table: which language a registered extension denotes. Written from the
+/// conventional meaning of the extensions (README, "Supported languages": `.htm` is HTML, `.pyi` is
+/// Python, `.h` / `.cc` are read with the C++ grammar, `.tsx` has a grammar of its own ...), NOT from the
+/// code: a row re-wired to another grammar (e.g. `htm` onto the XML parser, which reads `<script>` bodies
+/// as markup and so finds "tags" outside comments) fails [C16.table.post.every_row_names_its_language].
+pub open spec fn c16_rows(m: Map<OsString, LanguageParser>) -> bool {
+    &&& registered(m, "Makefile"@, "makefile"@)
+    &&& registered(m, "bash"@, "bash"@)
+    &&& registered(m, "c"@, "c"@)
+    &&& registered(m, "cc"@, "cpp"@)
+    &&& registered(m, "cpp"@, "cpp"@)
+    &&& registered(m, "cs"@, "c_sharp"@)
+    &&& registered(m, "css"@, "css"@)
+    &&& registered(m, "d.ts"@, "typescript"@)
+    &&& registered(m, "go"@, "go"@)
+    &&& registered(m, "go.mod"@, "go"@)
+    &&& registered(m, "go.sum"@, "go"@)
+    &&& registered(m, "go.work"@, "go"@)
+    &&& registered(m, "h"@, "cpp"@)
+    &&& registered(m, "htm"@, "html"@)
+    &&& registered(m, "html"@, "html"@)
+    &&& registered(m, "java"@, "java"@)
+    &&& registered(m, "js"@, "javascript"@)
+    &&& registered(m, "jsx"@, "javascript"@)
+    &&& registered(m, "kt"@, "kotlin"@)
+    &&& registered(m, "kts"@, "kotlin"@)
+    &&& registered(m, "makefile"@, "makefile"@)
+    &&& registered(m, "markdown"@, "markdown"@)
+    &&& registered(m, "md"@, "markdown"@)
+    &&& registered(m, "mk"@, "makefile"@)
+    &&& registered(m, "php"@, "php"@)
+    &&& registered(m, "phtml"@, "php"@)
+    &&& registered(m, "py"@, "python"@)
+    &&& registered(m, "pyi"@, "python"@)
+    &&& registered(m, "rb"@, "ruby"@)
+    &&& registered(m, "rs"@, "rust"@)
+    &&& registered(m, "sh"@, "bash"@)
+    &&& registered(m, "sql"@, "sql"@)
+    &&& registered(m, "swift"@, "swift"@)
+    &&& registered(m, "toml"@, "toml"@)
+    &&& registered(m, "ts"@, "typescript"@)
+    &&& registered(m, "tsx"@, "tsx"@)
+    &&& registered(m, "xml"@, "xml"@)
+    &&& registered(m, "yaml"@, "yaml"@)
+    &&& registered(m, "yml"@, "yaml"@)
+}
+
 //@unit id=C16.table file=src/language_parsers/mod.rs fn=language_parsers slice_from=<<let bash_parser>> slice_to_block_end=1
 //@wrapper
 fn language_parsers_table() -> (r: anyhow::Result<HashMap<OsString, LanguageParser>>)
     ensures
         r matches Ok(m) ==> c16_table(m@), // [C16.table.post.registered_names]
+        r matches Ok(m) ==> c16_rows(m@), // [C16.table.post.every_row_names_its_language]
 //@edit rule=ghost before=<<let bash_parser>>
     broadcast use lemma_blocks_osstring_sig;
     proof {
